@@ -3,7 +3,8 @@ LEVEL = "proof"
 LEAN_MODULES = ["CifModel.Props.C02"]
 REQUIRED = ["CifModel.C02_text_protocol", "CifModel.C02_fold_line_progress", "CifModel.C02_text_total",
             "CifModel.C02_flags_semis", "CifModel.C02_char_text_roundtrip",
-            "CifModel.C02_analysis_facts", "CifModel.C02_write_char_text"]
+            "CifModel.C02_analysis_facts", "CifModel.C02_write_char_text",
+            "CifModel.C02_value_presented", "CifModel.C02_value_roundtrip", "CifModel.C02_unquoted_stays_unquoted"]
 GEN = ["WriterConsts", "ErrCodes"]
 FAMILIES = ["decode", "writeval", "write"]
 TRUSTED_BASE = [
@@ -22,8 +23,8 @@ ASSUMPTIONS = [
     "decode_text is modelled for a scanner without extra whitespace / end-of-line characters",
 ]
 PARTIAL = [
-    "C02_value_roundtrip_full / C02_roundtrip_full: need the lexer and parser models of group gD (Model/Lexer.lean); proved of them: the "
-    "text-field case down to decode_text (C02_char_text_roundtrip, C02_text_protocol, all flag combinations)",
+    "C02_roundtrip_full (whole documents): needs the integrated parser model (group gJ); the value level is proved against the lexer "
+    "model of group gD (C02_value_roundtrip, C02_unquoted_stays_unquoted)",
     "C02_line_bound_full: the whole-document column invariant is not proved; proved: 0 < fold_line <= length (C02_fold_line_progress); the "
     "line bound is checked on every generated case by the oracle",
     "C02_total_full: false of the current tree (open findings F-table-key-colon, F-table-number-overlength, F-nested-table-nowrap); proved: "
